@@ -23,7 +23,7 @@ runtime slots (`@0` = the runtime under test, `@1` = a freshly built twin).
     ci <target> <val>                        VAR_CONFIG initial value
   operations (each answered by a dump line)
     @k build | copyin <j> | cycle <dt> | io <area> <size> <byte> <bit> <raw> | restart cold|warm |
-       store <0|1> | save | load | fault | wacc <name> <val>
+       store <0|1> | save | load | envw <0|1> (store writable or not) | fault | wacc <name> <val>
   values   n<ty>:<int>  s<ty>:<hex>  a<lo>_<hi>;..[v,..]  r{f=v,..}  ~  &
   targets  g:<name> | l:<name> | p:<prog>:<name>   then /m=<member> /f=<field> /i=<i>,<j>
 -/
@@ -364,6 +364,7 @@ def showErr : Err → String
   | .invalidTaskSingle => "InvalidTaskSingle"
   | .simulationFault => "SimulationFault"
   | .overflow => "Overflow"
+  | .retainStore => "RetainStore"
 
 def showInstance (ns : Names) (s : Storage) (id : Nat) : String :=
   match s.getInstance id with
@@ -375,7 +376,7 @@ def showVar (ns : Names) (s : Storage) : Val → String
   | .inst id => showInstance ns s id
   | v => showVal ns v
 
-def dump (ns : Names) (rt : Runtime) (res : Option Err) : String :=
+def dump (ns : Names) (rt : Runtime) (res : Option Err) (disk : Disk := {}) : String :=
   let s := rt.storage
   let globals := rt.globalsMeta.map fun m =>
     s!"{ns.show m.name}=" ++ (match s.getGlobal m.name with | some v => showVar ns s v | none => "?")
@@ -395,6 +396,9 @@ def dump (ns : Names) (rt : Runtime) (res : Option Err) : String :=
   s!"fr={rt.storage.frames} ov={if ov.isEmpty then "-" else joinWith "," ov} " ++
   s!"I={showHex (trimZeros rt.io.inputs)} Q={showHex (trimZeros rt.io.outputs)} M={showHex (trimZeros rt.io.memory)} " ++
   s!"dead={rt.deadBindings} acc={if acc.isEmpty then "-" else joinWith "," acc} " ++
+  s!"S={match disk.file with
+        | some (e :: es) => joinWith "," ((e :: es).map fun (n, v) => s!"{ns.show n}={showVal ns v}")
+        | _ => "-"} " ++
   s!"V {joinWith " " globals} {joinWith " " progs}"
 
 /-! ### operations -/
@@ -402,7 +406,7 @@ def dump (ns : Names) (rt : Runtime) (res : Option Err) : String :=
 structure St where
   desc : Desc := {}
   slots : Array (Option Runtime) := #[none, none]
-  disk : Disk := none
+  disk : Disk := {}
 
 def St.slot (st : St) (k : Nat) : Option Runtime := (st.slots.getD k none)
 
@@ -420,54 +424,62 @@ def opLine (st : St) (k : Nat) (ws : List String) : St × String :=
   match ws with
   | ["build"] =>
     match build st.desc.src with
-    | some rt => (st.setSlot k rt, "m " ++ dump ns rt none)
+    | some rt => (st.setSlot k rt, "m " ++ dump ns rt none st.disk)
     | none => (st, "m res=e:build")
   | ["copyin", j] =>
     match j.toNat?.bind st.slot, st.slot k with
     | some src, some rt =>
       let rt := { rt with io := { rt.io with inputs := src.io.inputs } }
-      (st.setSlot k rt, "m " ++ dump ns rt none)
+      (st.setSlot k rt, "m " ++ dump ns rt none st.disk)
     | _, _ => bad
   | ["cycle", dt] =>
     match dt.toInt?, st.slot k with
     | some dt, some rt =>
       let (rt, disk, res) := cycle (advanceTime rt dt) st.disk
-      ({ st.setSlot k rt with disk := disk }, "m " ++ dump ns rt res)
+      ({ st.setSlot k rt with disk := disk }, "m " ++ dump ns rt res disk)
     | _, _ => bad
   | ["io", a, s, b, bit, raw] =>
     match parseAddr? a s b bit, raw.toNat?, st.slot k with
     | some addr, some raw, some rt =>
       let rt := setDirect rt addr raw
-      (st.setSlot k rt, "m " ++ dump ns rt none)
+      (st.setSlot k rt, "m " ++ dump ns rt none st.disk)
     | _, _, _ => bad
   | ["restart", m] =>
     match parseMode? m, st.slot k with
     | some m, some rt =>
       match restart m rt with
-      | .ok rt => (st.setSlot k rt, "m " ++ dump ns rt none)
-      | .error e => (st, "m " ++ dump ns rt (some e))
+      | .ok rt => (st.setSlot k rt, "m " ++ dump ns rt none st.disk)
+      | .error e => (st, "m " ++ dump ns rt (some e) st.disk)
     | _, _ => bad
   | ["store", a] =>
     match parseBool? a, st.slot k with
     | some a, some rt =>
       let rt := setRetainStore rt a
-      (st.setSlot k rt, "m " ++ dump ns rt none)
+      (st.setSlot k rt, "m " ++ dump ns rt none st.disk)
     | _, _ => bad
   | ["save"] =>
     match st.slot k with
-    | some rt => ({ st with disk := saveRetainStore rt st.disk }, "m " ++ dump ns rt none)
+    | some rt =>
+      let (rt, disk, res) := saveRetainStore rt st.disk
+      ({ st.setSlot k rt with disk := disk }, "m " ++ dump ns rt res disk)
     | none => bad
+  | ["envw", w] =>
+    match parseBool? w, st.slot k with
+    | some w, some rt =>
+      let disk := { st.disk with writable := w }
+      ({ st with disk := disk }, "m " ++ dump ns rt none disk)
+    | _, _ => bad
   | ["load"] =>
     match st.slot k with
     | some rt =>
       let rt := loadRetainStore rt st.disk
-      (st.setSlot k rt, "m " ++ dump ns rt none)
+      (st.setSlot k rt, "m " ++ dump ns rt none st.disk)
     | none => bad
   | ["fault"] =>
     match st.slot k with
     | some rt =>
       let rt := simulationFault rt
-      (st.setSlot k rt, "m " ++ dump ns rt none)
+      (st.setSlot k rt, "m " ++ dump ns rt none st.disk)
     | none => bad
   | ["wacc", n, v] =>
     match st.slot k with
@@ -476,8 +488,8 @@ def opLine (st : St) (k : Nat) (ws : List String) : St × String :=
       match parseVal ns' v with
       | some (v, _) =>
         match writeAccess rt n v with
-        | .ok rt => (st.setSlot k rt, "m " ++ dump ns rt none)
-        | .error e => (st, "m " ++ dump ns rt (some e))
+        | .ok rt => (st.setSlot k rt, "m " ++ dump ns rt none st.disk)
+        | .error e => (st, "m " ++ dump ns rt (some e) st.disk)
       | none => bad
     | none => bad
   | _ => bad
